@@ -13,7 +13,8 @@ OUTCOMES = ["returns after 1 checkpoint", "still running when the owner is left 
             "cancelled through the handle right after the spawn", "cancelled through the handle after 1 checkpoint",
             "returns at once (no checkpoint, no teardown callback of its own)",
             "blocks until it is cancelled (through its handle before the owner is left, or by a crashing sibling)",
-            "returns after 1 checkpoint; the teardown callback of its own context then blocks until the task is cancelled through its handle"]
+            "returns after 1 checkpoint; the teardown callback of its own context then blocks until the task is cancelled through its handle",
+            "cancelled through the handle after 1 checkpoint; while handling the cancellation its clean-up raises an Exception"]
 SITES = ["owner context", "a child context of the owner", "another task running in an unrelated context"]
 HANDLERS = ["no exception handler", "handler returns True", "handler returns False", "handler returns 1 (truthy, not True)"]
 
@@ -27,7 +28,7 @@ def params(tier):
     nt = 2
     ps = [P("ntask", 0, nt - 1), P("site", 0, 2), P("nested", 0, 1), P("handler", 0, 3), P("fstart", 0, 1)]
     for i in range(nt):
-        ps += [P(f"api{i}", 0, 1), P(f"out{i}", 0, 7)]
+        ps += [P(f"api{i}", 0, 1), P(f"out{i}", 0, 8)]
     for j in range(D):
         ps += [P(f"gap{j}", 0, L), P(f"arm{j}", 0, 3)]
     return ps
@@ -40,8 +41,8 @@ def fn(a, tier):
     nt = 1 + pick(a["ntask"], ntmax)
     site, nested = pick(a["site"], 3), pick(a["nested"], 2)
     apis = [pick(a[f"api{i}"], 2) for i in range(nt)]
-    outs = [pick(a[f"out{i}"], 8 if (i == 0 or tier != "quick") else 3) for i in range(nt)]
-    handler_kind = pick(a["handler"], 4) if 2 in outs else 0
+    outs = [pick(a[f"out{i}"], 9 if (i == 0 or tier != "quick") else 3) for i in range(nt)]
+    handler_kind = pick(a["handler"], 4) if (2 in outs or 8 in outs) else 0
     fstart = pick(a["fstart"], 2)  # 1: factory started through the owner's METHOD while another (nested, short-lived) context is current
     tape = DeviationTape([(a[f"gap{j}"], a[f"arm{j}"]) for j in range(D)], L)
     log = []
@@ -84,7 +85,7 @@ def fn(a, tier):
 
             ctx.add_teardown_callback(blocking_teardown if outs[i] == 7 else own_teardown)
             try:
-                steps = {0: 1, 1: 3, 2: 1, 3: 2, 4: 3, 5: 0, 6: 0, 7: 1}[outs[i]]
+                steps = {0: 1, 1: 3, 2: 1, 3: 2, 4: 3, 5: 0, 6: 0, 7: 1, 8: 3}[outs[i]]
                 for _ in range(steps):
                     await anyio.sleep(0)
                 if outs[i] == 6:
@@ -93,6 +94,9 @@ def fn(a, tier):
                     raise errors[i]
             except BaseException as e:
                 log.append(("saw", i, "cancel" if isinstance(e, Cancelled) else type(e).__name__))
+                if outs[i] == 8 and isinstance(e, Cancelled):
+                    log.append(("raising", i))
+                    raise errors[i]  # e.g. a flush that fails while the cancelled task cleans up
                 raise
             finally:
                 log.append(("end", i))
@@ -124,12 +128,13 @@ def fn(a, tier):
                 h = tf.start_task_soon(make(i), f"t{i}")
             info["handles"][i] = h
             info["spawning"] = False
+            tf.all_task_handles().clear()  # what the caller does with the returned set is the caller's business
             if h not in tf.all_task_handles() and ("end", i) not in log:
                 info["violations"].append(("fresh-handle-missing-from-set", i))
             if outs[i] == 3:
                 info[("live_at_cancel", i)] = ("end", i) not in log
                 h.cancel()
-            elif outs[i] == 4:
+            elif outs[i] in (4, 8):
                 await anyio.sleep(0)
                 info[("live_at_cancel", i)] = ("end", i) not in log
                 h.cancel()
@@ -177,7 +182,7 @@ def fn(a, tier):
                 tg.start_soon(waiter, i, tf)
             await anyio.sleep(0)
             # tasks that block until cancelled are released through their handles before the owner is left
-            will_crash = (2 in outs) and handler_kind not in (1, 3)
+            will_crash = (2 in outs or 8 in outs) and handler_kind not in (1, 3)
             for i in range(nt):
                 if outs[i] == 6 and not will_crash:
                     info[("live_at_cancel", i)] = ("end", i) not in log
@@ -226,7 +231,7 @@ def fn(a, tier):
     summary = {"tasks": [f"{['start_task', 'start_task_soon'][apis[i]]}: {OUTCOMES[outs[i]]}" for i in range(nt)],
                "spawned_from": SITES[site], "owner": "nested" if nested else "child of an unrelated root", "handler": HANDLERS[handler_kind], "factory_started_via": "owner.start_background_task_factory() while a nested context was current" if fstart else "shortcut in the owner",
                "schedule": tape.taken}
-    raisers = [i for i in range(nt) if outs[i] == 2]
+    raisers = [i for i in range(nt) if outs[i] == 2 or (outs[i] == 8 and ("raising", i) in log)]
     expect_escape = bool(raisers) and handler_kind not in (1, 3)
     if info["violations"]:
         v = info["violations"][0]
@@ -269,7 +274,7 @@ def fn(a, tier):
         saw_cancel = ("saw", i, "cancel") in pos
         if outs[i] in (0, 1, 2, 5) and saw_cancel:
             return FAIL(f"task-cancelled-although-not-requested:out={outs[i]}", log, summary)
-        if outs[i] in (3, 4, 6, 7) and ("begin", i) in pos and info.get(("live_at_cancel", i)) and not saw_cancel:
+        if outs[i] in (3, 4, 6, 7, 8) and ("begin", i) in pos and info.get(("live_at_cancel", i)) and not saw_cancel:
             return FAIL(f"cancel-through-handle-lost:out={outs[i]}:api={apis[i]}", log, summary)
         if ("waited", i) not in pos:
             return FAIL(f"wait_finished-never-returned:out={outs[i]}", log, summary)
